@@ -244,30 +244,42 @@ class Endpoint:
     def __init__(self, i):
         self.i = i
         self.calls: List[Any] = []
+        self.consume = False
+
+    def _seen(self, p):
+        self.calls.append(dict(p) if isinstance(p, dict) else p)
+        if self.consume and isinstance(p, dict):
+            # an endpoint that uses up the mapping it was given (pops what it handles, leaves a marker): its own business, not the next request's
+            p.clear()
+            p["handled"] = True
 
     def wsgi(self, environ, start_response):
-        self.calls.append(environ.get("PATH_PARAMS"))
+        self._seen(environ.get("PATH_PARAMS"))
         start_response("200 OK", [])
         return [b""]
 
     async def asgi(self, scope, receive, send):
-        self.calls.append(scope.get("path_params"))
+        self._seen(scope.get("path_params"))
 
 
-def run_router(iface, templates, path, root="", outer=None):
-    """root: the mount point the server / an outer Subpaths already removed from the path (SCRIPT_NAME / root_path); routing is on `path` alone"""
+def run_router(iface, templates, path, root="", outer=None, earlier=False):
+    """root: the mount point the server / an outer Subpaths already removed from the path (SCRIPT_NAME / root_path); routing is on `path` alone.
+    earlier: the same router object has already served one request for this very path, whose endpoint consumed its parameter mapping"""
     eps = [Endpoint(i) for i in range(len(templates))]
     if iface == "wsgi":
         app = WR.Router(*[(t, e.wsgi) for t, e in zip(templates, eps)])
         if outer:  # the router is itself the endpoint of a catch-all route of an outer router (the documented way to nest routers)
             app = WR.Router((outer, app))
-        calls = []
-        list(app({"REQUEST_METHOD": "GET", "PATH_INFO": path, "SCRIPT_NAME": root}, lambda s, h, e=None: calls.append(s)))
-        status = calls[0] if calls else None
     else:
         app = AR.Router(*[(t, e.asgi) for t, e in zip(templates, eps)])
         if outer:
             app = AR.Router((outer, app))
+
+    def once():
+        if iface == "wsgi":
+            calls = []
+            list(app({"REQUEST_METHOD": "GET", "PATH_INFO": path, "SCRIPT_NAME": root}, lambda s, h, e=None: calls.append(s)))
+            return calls[0] if calls else None
         sent = []
 
         async def send(m):
@@ -276,7 +288,18 @@ def run_router(iface, templates, path, root="", outer=None):
         async def receive():
             return {"type": "http.disconnect"}
         drive(app({"type": "http", "method": "GET", "path": path, "root_path": root, "headers": []}, receive, send))
-        status = sent[0]["status"] if sent else None
+        return sent[0]["status"] if sent else None
+    if earlier:
+        for ep in eps:
+            ep.consume = True
+        try:
+            once()
+        except ValueError:
+            pass
+        for ep in eps:
+            ep.consume = False
+            ep.calls.clear()
+    status = once()
     return status, eps
 
 
@@ -298,13 +321,14 @@ def job_route(job) -> report.JobResult:
     specs = [spec_route(t) for t in templates]
     pz = string_of_codes([term_of(c) for c in path.items])
     SSeq.NORMALIZE = False
+    SSeq.CONST_HASH = bool(job.get("const_hash"))  # should the current source key a table on the path, the proxy may be hashed (equality stays solver-decided)
 
     spec_pats = [ReShim.compile(spec_pattern_text(t)) for t in templates]
     use_z3 = n <= 4 and not job.get("prefix_text")
 
     def fn():
         try:
-            status, eps = run_router(iface, templates, path, job.get("root", ""), job.get("outer"))
+            status, eps = run_router(iface, templates, path, job.get("root", ""), job.get("outer"), job.get("earlier", False))
             err = None
         except ValueError as ex:  # conversion error: still decide what the spec says about this path
             status, eps, err = None, [], ex
@@ -357,7 +381,7 @@ def job_route(job) -> report.JobResult:
         if not (klass in ("param-text-wrong", "param-value-wrong") or "(z3 regex oracle)" in (detail or "")):
             e.last_sat = False  # class decided by forks, not by a final query: any model of the path condition is the witness
         m = e.witness()
-        wit = {"iface": iface, "routes": templates, "path": conc(path, m), "root": job.get("root", ""), "outer": job.get("outer")}
+        wit = {"iface": iface, "routes": templates, "path": conc(path, m), "root": job.get("root", ""), "outer": job.get("outer"), "earlier": job.get("earlier", False)}
         with shims.off():
             cp = concrete_route(wit)
         if klass is not None:
@@ -374,6 +398,7 @@ def job_route(job) -> report.JobResult:
             eng.explore(fn, on_path)
     finally:
         SSeq.NORMALIZE = True
+        SSeq.CONST_HASH = False
     res.absorb_engine(eng)
     return res
 
@@ -448,7 +473,7 @@ def concrete_route(w) -> Optional[str]:
     try:
         templates, path = w["routes"], w["path"]
         try:
-            status, eps = run_router(w["iface"], templates, path, w.get("root", ""), w.get("outer"))
+            status, eps = run_router(w["iface"], templates, path, w.get("root", ""), w.get("outer"), w.get("earlier", False))
         except Exception as ex:  # noqa: BLE001
             return f"exception {type(ex).__name__}: {ex}"
         exp = next((i for i, t in enumerate(templates) if py_route_match(t, path)), None)
@@ -825,6 +850,10 @@ def jobs(tier: str):
             for n in range(0, 4):
                 out.append(dict(name=f"route/{iface}/{tname}/nested-under:{outer}/+{n}", kind="route", iface=iface, table=tname, n=n,
                                 prefix_text=TABLES[tname][0][:3], outer=outer, weight=3 ** n))
+        # the same router object serving the same path a second time, after an endpoint that consumed its parameter mapping
+        for tname in ("int-str-lit", "two-params", "any-lit"):
+            for n in range(0, 4):
+                out.append(dict(name=f"route/{iface}/{tname}/second-request-for-the-path/n{n}", kind="route", iface=iface, table=tname, n=n, earlier=True, const_hash=True, weight=3 ** n))
         out.append(dict(name=f"route/{iface}/decimal-then-str/s+5", kind="route", iface=iface, table="decimal-then-str", n=5, prefix_text="/s/", weight=600))
         out.append(dict(name=f"route/{iface}/decimal-int/q+5", kind="route", iface=iface, table="decimal-int", n=5, prefix_text="/q/", weight=600))
         out.append(dict(name=f"route/{iface}/decimal-date/d+10", kind="route", iface=iface, table="decimal-date", n=10, prefix_text="/d/", weight=5000))
